@@ -139,6 +139,35 @@ func rootsFor(prop, tier string) []Root {
 				add("VH_C15_TableMapWide", w, 600)
 			}
 		}
+	case "C16":
+		for _, vl := range []int{0, 5, 50} {
+			add("VH_C16_Format", vl, 27)
+			add("VH_C16_Format", vl, 38)
+			if thorough {
+				add("VH_C16_Format", vl, 165)
+				add("VH_C16_Format", vl, 255)
+			}
+		}
+		for cs := 0; cs < 3; cs++ {
+			for fl := 0; fl < 2; fl++ {
+				for _, nl := range []int{0, 1, 16} {
+					add("VH_C16_Rotate", nl, cs, fl)
+				}
+				sqls := []int{0, 5}
+				dbs := []int{0, 3}
+				if thorough {
+					sqls = []int{0, 1, 5, 70000}
+					dbs = []int{0, 1, 3, 255}
+				}
+				for _, dl := range dbs {
+					for _, sl := range sqls {
+						add("VH_C16_Query", dl, sl, cs, fl)
+					}
+				}
+			}
+			add("VH_C16_IntVarRand", 0, cs)
+			add("VH_C16_IntVarRand", 1, cs)
+		}
 	case "C17":
 		hi := 64
 		if thorough {
